@@ -85,7 +85,11 @@ func main() {
 			Workers:    *workers,
 			Verbose:    *verbose,
 			GoMode:     h.Attrs["go"],
+			Clock:      h.Attrs["clock"],
 			Model:      model,
+		}
+		if v := h.Attrs["z3timeout"]; v != "" {
+			fmt.Sscan(v, &opt.TimeoutMs)
 		}
 		if v := h.Attrs["maxpaths"]; v != "" {
 			fmt.Sscan(v, &opt.MaxPaths)
